@@ -1,5 +1,246 @@
 package checks
 
-import "verif/lab/core"
+import (
+	"encoding/json"
+	"fmt"
+	"math/big"
+	"os"
+	"os/exec"
+	"strings"
+	"time"
 
-func c14Race(run *core.Run) {}
+	g "github.com/zenon-network/go-zenon/chain/genesis/mock"
+	"github.com/zenon-network/go-zenon/chain/nom"
+	"github.com/zenon-network/go-zenon/common/types"
+	"github.com/zenon-network/go-zenon/wallet"
+
+	"verif/lab/core"
+	"verif/lab/node"
+	"verif/lab/walk"
+)
+
+const insertRaceCfg = `CONSTANTS
+  FixParent = %s
+  WithHist = %s
+INIT Init
+NEXT Next
+%s
+CHECK_DEADLOCK FALSE
+`
+
+type raceStep struct {
+	A        string `json:"a"`
+	R        string `json:"r"`
+	Frontier string `json:"frontier"`
+}
+type raceBehaviour struct {
+	Steps []raceStep `json:"steps"`
+}
+
+// c14Race: the producer/sync interleavings of InsertRace.tla on a real node, then a race-detector stress run.
+func c14Race(run *core.Run) {
+	walk.LabConstants()
+	res, err := core.RunTLC(core.TLCOpts{Module: "InsertRace", CfgText: fmt.Sprintf(insertRaceCfg, "TRUE", "FALSE", "INVARIANTS StoreNotCorrupted"), Timeout: 5 * time.Minute})
+	if err != nil || res.Violated != "" || res.Err != "" {
+		core.Fatal("InsertRace: %v %s %s", err, res.Violated, res.Err)
+	}
+	run.States += res.Distinct
+	run.Transitions += res.Generated
+	nc, err := core.RunTLC(core.TLCOpts{Module: "InsertRace", CfgText: fmt.Sprintf(insertRaceCfg, "FALSE", "FALSE", "INVARIANTS StoreNotCorrupted"), Timeout: 5 * time.Minute})
+	if err != nil || nc.Violated != "StoreNotCorrupted" {
+		core.Fatal("negative control (own momentum inserted on a stale frontier, F1) not refuted")
+	}
+	var behaviours []*raceBehaviour
+	_, err = core.RunTLC(core.TLCOpts{Module: "InsertRace", CfgText: fmt.Sprintf(insertRaceCfg, "TRUE", "TRUE", "VIEW GenView\nACTION_CONSTRAINT EmitEdge"), Workers: 1, Timeout: 5 * time.Minute,
+		OnLine: func(line string) {
+			if js, ok := core.ParseB(line, "B"); ok {
+				var b raceBehaviour
+				if json.Unmarshal([]byte(js), &b) == nil {
+					behaviours = append(behaviours, &b)
+				}
+			}
+		}})
+	if err != nil {
+		core.Fatal("InsertRace generation: %v", err)
+	}
+	for _, b := range behaviours {
+		if err := insertRaceReplay(run, b); err != nil {
+			core.Fatal("insert race replay: %v", err)
+		}
+		run.Traces++
+	}
+	run.Set("insert_race_interleavings_replayed", len(behaviours))
+
+	// race detector on a real node: four readers (stores, historical views, pool listings, RPC) against a writer doing gossip,
+	// momentum-by-momentum sync, a reorganisation and explicit rollbacks
+	dir, err := os.MkdirTemp(core.Scratch(), "race-")
+	if err != nil {
+		core.Fatal("%v", err)
+	}
+	defer os.RemoveAll(dir)
+	bin := dir + "/racecheck"
+	build := exec.Command("go", "build", "-race", "-tags", "verif", "-o", bin, "./cmd/racecheck")
+	build.Dir = core.VerifDir + "/lab"
+	build.Env = append(os.Environ(), "GOFLAGS=-mod=mod", "GOPROXY=off", "GOSUMDB=off", "GOTOOLCHAIN=local")
+	if out, err := build.CombinedOutput(); err != nil {
+		core.Fatal("building the race-detector binary: %v %s", err, tail(string(out), 600))
+	}
+	secs := 8
+	if run.Thorough() {
+		secs = 120
+	}
+	cmd := exec.Command(bin, fmt.Sprint(secs), fmt.Sprint(run.Seed))
+	out, err := cmd.CombinedOutput()
+	s := string(out)
+	switch {
+	case strings.Contains(s, "DATA RACE"):
+		i := strings.Index(s, "DATA RACE")
+		run.Report("C14:data-race", "the race detector reports a data race between readers and the inserting goroutine: "+firstFrames(s[i:]), map[string]interface{}{"kind": "race-stress", "seconds": secs})
+	case strings.Contains(s, "READER-PANIC"):
+		run.Report("C14:reader-panics", "a reader panicked while the writer was inserting: "+tail(s, 400), nil)
+	case strings.Contains(s, "RACE-STRESS-OK"):
+		run.Set("race_stress", strings.TrimSpace(s[strings.Index(s, "RACE-STRESS-OK"):]))
+		run.Traces++
+	default:
+		core.Fatal("race stress run failed (%v): %s", err, tail(s, 600))
+	}
+}
+
+func firstFrames(s string) string {
+	lines := strings.Split(s, "\n")
+	var keep []string
+	for _, l := range lines {
+		l = strings.TrimSpace(l)
+		if strings.Contains(l, "go-zenon/") && !strings.HasPrefix(l, "/") {
+			keep = append(keep, l)
+		}
+		if len(keep) >= 6 {
+			break
+		}
+	}
+	return strings.Join(keep, " <- ")
+}
+
+func insertRaceReplay(run *core.Run, b *raceBehaviour) error {
+	node.Clock.Set(time.Unix(1000000000, 0))
+	rep := map[string]interface{}{"kind": "insert-race", "behaviour": b}
+	v, err := node.New("race-victim", node.Options{Producer: true})
+	if err != nil {
+		return err
+	}
+	defer v.Stop()
+	if err := v.ProduceN(3); err != nil {
+		return err
+	}
+	base, err := v.Detailed(2, v.Height())
+	if err != nil {
+		return err
+	}
+	// the competitor: same height, same slot, other content, produced by a second node
+	q, err := node.New("race-other", node.Options{Producer: true})
+	if err != nil {
+		return err
+	}
+	if _, err := q.InsertChain(wireAll(base)); err != nil {
+		q.Stop()
+		return err
+	}
+	if _, err := q.Submit(&nom.AccountBlock{BlockType: nom.BlockTypeUserSend, Address: g.User3.Address, ToAddress: g.User4.Address, TokenStandard: types.ZnnTokenStandard, Amount: big.NewInt(5)}, g.User3); err != nil {
+		q.Stop()
+		return err
+	}
+	if err := q.Produce(0); err != nil {
+		q.Stop()
+		return err
+	}
+	comp, err := q.Detailed(q.Height(), q.Height())
+	compDump := q.Dump()
+	q.Stop()
+	if err != nil {
+		return err
+	}
+	// the victim's own content
+	if _, err := v.Submit(&nom.AccountBlock{BlockType: nom.BlockTypeUserSend, Address: g.User1.Address, ToAddress: g.User2.Address, TokenStandard: types.ZnnTokenStandard, Amount: big.NewInt(9)}, g.User1); err != nil {
+		return err
+	}
+	baseDump := v.Dump()
+	baseFrontier := v.Frontier().Hash
+	var own *nom.MomentumTransaction
+	for si, s := range b.Steps {
+		got := ""
+		switch s.A {
+		case "PGenerate":
+			// what pillar.worker.generateMomentum does, with the same public calls
+			insert := v.Chain.AcquireInsert("lab momentum-generator")
+			prev := v.Frontier()
+			t := prev.Timestamp.Add(10 * time.Second)
+			node.Clock.Set(t)
+			producer, err := v.Cons.GetMomentumProducer(t)
+			if err != nil {
+				insert.Unlock()
+				return err
+			}
+			var key *wallet.KeyPair
+			for _, k := range g.PillarKeys {
+				if k.Address == *producer {
+					key = k
+				}
+			}
+			blocks := v.Chain.GetNewMomentumContent()
+			m := &nom.Momentum{ChainIdentifier: v.Chain.ChainIdentifier(), PreviousHash: prev.Hash, Height: prev.Height + 1, TimestampUnix: uint64(t.Unix()), Content: nom.NewMomentumContent(blocks), Version: 1}
+			m.EnsureCache()
+			own, err = v.Sup.GenerateMomentum(&nom.DetailedMomentum{Momentum: m, AccountBlocks: blocks}, key.Signer)
+			insert.Unlock()
+			if err != nil {
+				return fmt.Errorf("generate own momentum: %v", err)
+			}
+			got = "generated"
+		case "PInsert":
+			insert := v.Chain.AcquireInsert("lab create-momentum")
+			err := v.Chain.AddMomentumTransaction(insert, own)
+			insert.Unlock()
+			got = "inserted"
+			if err != nil {
+				got = "refused"
+			}
+		case "SInsert":
+			_, err := v.InsertChain(wireAll(comp))
+			got = classifySyncErr(err)
+			if got == "ok" {
+				got = "adopted"
+			}
+		}
+		if got != s.R {
+			run.Report(fmt.Sprintf("C14:insert-race-%s-%s-specified-%s", s.A, got, s.R), fmt.Sprintf("step %d %s: node says %s, specification says %s (interleaving %s)", si+1, s.A, got, s.R, core.JSON(b.Steps)), rep)
+			return nil
+		}
+		// the store holds the frontier's momentum and nothing else
+		var want string
+		fr := v.Frontier().Hash
+		switch s.Frontier {
+		case "base":
+			want = baseDump
+			if fr != baseFrontier {
+				want = "?"
+			}
+		case "competitor":
+			want = compDump
+			if fr != comp[0].Momentum.Hash {
+				want = "?"
+			}
+		case "own":
+			if own == nil || fr != own.Momentum.Hash {
+				want = "?"
+			}
+		}
+		if want == "?" {
+			run.Report("C14:insert-race-frontier", fmt.Sprintf("after step %d the frontier is not the %s momentum (interleaving %s)", si+1, s.Frontier, core.JSON(b.Steps)), rep)
+			return nil
+		}
+		if want != "" && v.Dump() != want {
+			run.Report("C14:insert-race-store-corrupted", fmt.Sprintf("after step %d (%s) the store differs from that of a node whose frontier is the %s momentum: %s", si+1, s.A, s.Frontier, firstDiff(want, v.Dump())), rep)
+			return nil
+		}
+	}
+	return nil
+}
